@@ -291,6 +291,19 @@ class Runner:
                 for scope in ("local", "global"):
                     runner.w.git("config", "--" + scope, "concurrent.writer", "step%d" % n, check=False)
                     runner.w.git("config", "--" + scope, "merge.conflictstyle", "zdiff3", check=False)
+                # ... and appends a rule of its own to the attributes files (git lfs track, an editor save)
+                rule = "*.bin%d filter=lfs diff=lfs merge=lfs -text" % n
+                runner.concurrent_rule = rule
+                for path in (runner.local_attrs, runner.global_attrs):
+                    try:
+                        os.makedirs(os.path.dirname(path), exist_ok=True)
+                        cur = runner._read(path) or ""
+                        with _real_io_open(path, "a", encoding="utf8") as f:
+                            f.write(("" if (not cur or cur.endswith("\n")) else "\n") + rule + "\n")
+                    except OSError:
+                        pass
+                before["local_attrs"] = runner._read(runner.local_attrs)
+                before["global_attrs"] = runner._read(runner.global_attrs)
                 runner.concurrent = {"concurrent.writer": "step%d" % n, "merge.conflictstyle": "zdiff3"}
                 # fold the other process' writes into the baseline at once: they are not nbdime's doing
                 for scope in ("local", "global"):
@@ -436,6 +449,7 @@ class Runner:
             self.foreign_diff(op, before, now, sig, "at step %d (before %s)" % (n, " ".join(map(str, argv[:6]))))
 
         self.concurrent = None
+        self.concurrent_rule = None
         outcome, fired, nsteps = self.run_command(op, before, on_step)
         after = self.observe(probes=True)
         if self.concurrent:
@@ -449,6 +463,12 @@ class Runner:
                         self.violate("S4", dict(sig, key=k, scope_touched="concurrent"),
                                      "a setting written by another process between two of nbdime's git config steps was lost or "
                                      "reverted: %s=%r in %s scope, now %r" % (k, v, scope, have.get(k)))
+            for label, path in (("local", self.local_attrs), ("global", self.global_attrs)):
+                text = self._read(path) or ""
+                if self.concurrent_rule not in text.splitlines():
+                    self.violate("S4", dict(sig, key="attributes", scope_touched="concurrent"),
+                                 "a rule appended to the %s attributes file by another process between two of nbdime's steps "
+                                 "was lost: %r not in %r" % (label, self.concurrent_rule, text))
             self.stat("probe_concurrent_writer_survived")
         self.stat("commands")
         self.stat("cmd_%s_%s" % (comp, sig["action"]))
